@@ -125,18 +125,23 @@ def rootKron (ns : List Nat) (c : Cfg) (m : Option Method) : Outcome :=
   else
     seqOutcomes (ns.map fun k => rootBase k c m) "Root"
 
-/-- `KroneckerProductLinearOperator.root_inv_decomposition(method=…)`: the `method` argument is dropped
-on both branches (`super().root_inv_decomposition()` / `lt.root_inv_decomposition()`). -/
-def rootInvKron (ns : List Nat) (c : Cfg) (_m : Option Method) : Outcome :=
+/-- `KroneckerProductLinearOperator.root_inv_decomposition(method=…)` (after f68e44a the `method` argument is
+forwarded on both branches: `super().root_inv_decomposition(…, method=method)` / `lt.root_inv_decomposition(method=method)`). -/
+def rootInvKron (ns : List Nat) (c : Cfg) (m : Option Method) : Outcome :=
   let n := prod ns
   if n ≤ c.maxChol then
     if n = 1 then .ok [] "Root" else
-    match chooseRootMethod n c with
+    let m := m.getD (chooseRootMethod n c)
+    match m with
     | .cholesky => .ok (cholPrims ns) "Root"
-    | .symeig | .diagonalization => .ok (ns.map .symeig) "Root"
-    | _ => .ok (lanczosPrims n c) "Root"
+    | .lanczos => .ok (lanczosPrims n c) "Root"
+    | .symeig | .svd | .diagonalization => .ok (ns.map .symeig) "Root"
+    | .pinverse => match rootKron ns c none with
+        | .ok p _ => .ok p "Root"
+        | e => e
+    | .pivotedCholesky => .error "RuntimeError"
   else
-    seqOutcomes (ns.map fun k => rootInvBase k c none) "Root"
+    seqOutcomes (ns.map fun k => rootInvBase k c m) "Root"
 
 /-- `KroneckerProductLinearOperator.diagonalization`: `method=None` means symeig, per factor. -/
 def diagKron (ns : List Nat) (c : Cfg) (m : Option Method) : Option (List Prim) :=
